@@ -73,9 +73,13 @@ Definition tet_add_face (s : mesh) (hes : list nat) (check : bool) : mesh * opti
 Definition tet_add_face_v (s : mesh) (vs : list nat) : mesh * option nat :=
   if negb (length vs =? 3) then (s, None) else add_face_v s vs.
 
+(* with topology check: exactly four distinct vertices over the four halffaces (std::set of the from-vertices) *)
+Definition hfs_vertex_set (s : mesh) (hfs : list nat) : list nat := set_of_list (flat_map (hf_vertices s) hfs).
+
 Definition tet_add_cell (s : mesh) (hfs : list nat) (check : bool) : mesh * option nat :=
   if negb (length hfs =? 4) then (s, None)
   else if negb (forallb (fun hf => length (face_at s (hf / 2)) =? 3) hfs) then (s, None)
+  else if check && negb (length (hfs_vertex_set s hfs) =? 4) then (s, None)
   else add_cell s hfs check.
 
 (* ------------------------------------------------------------------ reuse-or-create (98-123) *)
